@@ -55,6 +55,18 @@ def families(tier):
                 sid = f'{tname}-{pshape}-{yshape}-{actor}-o{"".join(o)}'
                 out.append(dict(prop='C02', family='c02.fifo.' + ('fwd' if fw else 'plain'), id='c02/' + sid, cfg=cfg, params=dict(topo=tname, pshape=pshape),
                                 scn=dict(buses={b: {} for b in bn}, order=list(o), handlers=hs, main=main, actors=actors, forwards=fw, settle=3.0)))
+    # a serial bus B fed by sibling handlers of a parallel_handlers bus A, each awaiting a child on B (one of them gives up its await): B must stay serial and FIFO
+    for giveup, nsib, yq in itertools.product((False, True), (2, 3), (0, 1)):
+        hs = [dict(bus='A', pat='P', name='h1', prog=[('disp', 'B', 'C1', 'await'), ('pause',)]),
+              dict(bus='A', pat='P', name='h2', prog=[('pause',)] + ([('await_tmo', 'B', 'C2', 0.5), ('disp', 'B', 'C4', 'await')] if giveup else [('disp', 'B', 'C2', 'await')]))]
+        if nsib == 3:
+            hs.append(dict(bus='A', pat='P', name='h3', prog=[('pause',), ('pause',), ('disp', 'B', 'C3', 'await')]))
+        hs += [dict(bus='B', pat='C', name='hcB', prog=[('pause',), ('pause',)]), dict(bus='B', pat='*', name='probeB', prog=[('ret', 0)], kind='sync'),
+               dict(bus='B', pat='Y', name='hyB', prog=[('pause',)]), dict(bus='A', pat='*', name='probeA', prog=[('ret', 0)], kind='sync')]
+        main = [('disp', 'B', 'Y0', 'await'), ('disp', 'A', 'P', 'ff')] + [('disp', 'B', 'Y1', 'ff')] * yq
+        for o in (['A', 'B'], ['B', 'A']):
+            out.append(dict(prop='C02', family='c02.fifo.parallel_parent', id=f'c02/parpar-g{int(giveup)}-n{nsib}-y{yq}-o{"".join(o)}', cfg=dict(cfg, window=0.7), params=dict(topo='parpar', pshape='sib'),
+                            scn=dict(buses={'A': dict(parallel=True), 'B': {}}, order=o, handlers=hs, main=main, actors=[], forwards=[], settle=3.0)))
     return out
 
 
@@ -93,8 +105,11 @@ def oracle(spec, res):
                                  nbuses=len(spec['scn']['buses'])))
     # (b) serial bus: no handler for y enters while a handler of a different event on the same bus is active and not awaiting
     ivs = tr.intervals()
+    par = {b for b, c in spec['scn']['buses'].items() if c.get('parallel')}
     for en in tr.enters:
         s, bus, ev = en[0], en[2], en[4]
+        if bus in par:
+            continue
         for (a, b, bus1, h1, ev1, who1) in ivs:
             if bus1 == bus and ev1 != ev and a < s and (b is None or s < b):
                 if tr.awaiting(who1, s) is None:
